@@ -4,6 +4,7 @@ mod c01probes;
 mod c02mut;
 mod c03;
 mod divrem;
+mod bounded;
 mod mini;
 mod c05corelib;
 mod c06;
